@@ -11,3 +11,4 @@ import BnpVerif.Props.C12
 #print axioms C12.synched_complete_any_consumer
 #print axioms C12.left_join_complete
 #print axioms C12.zip_columns_complete
+#print axioms C12.ragged_change_iff
